@@ -153,6 +153,12 @@ func (h *hist) addViews(line tr.M, height uint64) {
 		reg = []regEntry{}
 	}
 	line["registry"] = reg
+	if h.life != nil {
+		line["life"] = h.lifeObs()
+		if h.life.step != nil {
+			line["lstep"] = h.life.step
+		}
+	}
 
 	// the read-only view of the head (what queries are answered from) shows what the node committed for its head
 	func() {
